@@ -11,6 +11,7 @@ import SV.TxCache.SelProofs
 import SV.TxCache.OrderProofs
 import SV.TxCache.ListProofs
 import SV.TxCache.AddCommute
+import SV.TxCache.Sections
 namespace SV.Props.C14
 open SV SV.TxCache
 
@@ -84,5 +85,36 @@ theorem eviction_removals_are_one_critical_section : Facts.evictionRemovalsUnder
     whatever the interleaving, at quiescence the counters equal what the maps hold -/
 theorem counters_are_paired_with_map_updates : (Facts.hashIndexCountersPaired && Facts.senderCounterPaired) = true :=
   Facts.counters_paired_with_map_updates
+
+/-! ### concurrency at critical-section granularity (SV/TxCache/Sections.lean)
+    By the regenerated facts `addTx_is_one_critical_section` and `eviction_removals_are_one_critical_section` (and the
+    whole-body locks of RemoveTxByHash and Clear) every concurrent execution of AddTx / RemoveTxByHash / Clear / eviction is, for
+    the two indexes, an interleaving of the sections modelled by `Sections.Step`: (A) the locked part of AddTx, (A') its
+    unlocked removal of the trimmed hashes, (R), (C), and ONE eviction pass over an ARBITRARY (possibly stale) victim list. -/
+/-- no transaction reachable by hash is ever orphaned: it is in its sender's list, or an in-flight AddTx is about to remove it
+    from the hash index (the invariant defect F13 violated before eviction's removals were put inside `mutTxOperation`) -/
+theorem no_orphan_under_any_interleaving_of_sections (U : Bytes → Tx) (cfg : Config) (steps : List Sections.Step)
+    (hw : ∀ t, Sections.Step.add t ∈ steps → WfTx U t) : Sections.NoOrphan (Sections.Conf.run cfg steps) :=
+  Sections.noOrphan_run U cfg steps hw
+/-- once all goroutines have finished (no AddTx in flight) every pooled transaction can be selected and evicted -/
+theorem quiescent_pool_has_no_unreachable_transaction (U : Bytes → Tx) (cfg : Config) (steps : List Sections.Step)
+    (hw : ∀ t, Sections.Step.add t ∈ steps → WfTx U t) (hq : (Sections.Conf.run cfg steps).pending = []) :
+    ∀ h x, (h, x) ∈ (Sections.Conf.run cfg steps).pool.byHash →
+      ∃ l, (x.sender, l) ∈ (Sections.Conf.run cfg steps).pool.lists ∧ x ∈ l :=
+  Sections.quiescent_no_orphan U cfg steps hw hq
+/-- each index stays well formed on its own (keys = hashes, distinct; lists sorted, non-empty, under their sender; counters
+    truthful) under every interleaving -/
+theorem indexes_well_formed_under_any_interleaving (U : Bytes → Tx) (cfg : Config) (steps : List Sections.Step)
+    (hw : ∀ t, Sections.Step.add t ∈ steps → WfTx U t) : Sections.WfConf U (Sections.Conf.run cfg steps) :=
+  Sections.wfConf_run U cfg steps hw
+/-- the sequential model's AddTx is section (A) immediately followed by (A') -/
+theorem sequential_add_is_the_two_sections (p : Pool) (t : Tx) :
+    addTxCore Variant.current p t =
+      (Sections.dropSection (Sections.addSection p t).1 (Sections.addSection p t).2.2, (Sections.addSection p t).2.1) :=
+  Sections.addTxCore_eq_sections p t
+/-- the agreement is one-sided on purpose: two AddTx of the same hash around a trim leave a transaction listed but not hashed
+    (the "slight inconsistency" the source comments mention), so the sequential two-sided `Inv` is NOT an invariant here -/
+theorem two_sided_agreement_is_not_invariant : ¬ Inv Sections.Ex.U (Sections.Conf.run Sections.Ex.cfg Sections.Ex.twoSided).pool :=
+  Sections.two_sided_fails_inv
 
 end SV.Props.C14
